@@ -58,7 +58,7 @@ def md_tree(rng, depth):
         k = rng.choice(["k", "note", "ünï", "α β", "n", "arr", "f", "sub", "type", "q" * 40, "x.y", "rate%2Fhz", "50%2F50", "%", "%25", "2024-03-01", "nodes", "edges", "shape", "0",
                         "input_type", "output_type", "weight", "input_shape", "w_in", "start_dim", "group", "name", "value", "self", "key",
                         "data", "dtype", "\ufeffk", "members", "attrs", "file", "parent", "id", "ref", "..", "...", "#tag", "#refs#", "{}",
-                        "a b", "%s"])
+                        "a b", "%s", "_origin", "_", "__dict__", "__class__", "_k", "k_", "-k", "~k", "$ref", "@id", "!tag", "K", "TYPE"])
         r = rng.random()
         if r < 0.2:
             out[k] = rng.choice(["", "text", "日本語", "a\nb", "same", "NIRGraph", "spikes> ", " ", "    ", " lead", "tab\t", "trail \n",
